@@ -95,16 +95,22 @@ int main(int argc, char** argv) {
         MemoryManager& mm = XalanMemMgrs::getDefaultXercesMemMgr();
         // ONE object factory for all cases of the run, as in a transformation: value objects released by one evaluation are recycled
         // by the next (a recycled object must not remember anything of its previous life)
+        // ... and ONE execution context, as in a transformation, where it lives until the next reset: the value objects a case binds to its
+        // variables are released when the case ends and recycled by the next one (a reset would empty the factory's caches).  After an
+        // evaluation that failed the context is replaced, as a transformation ends there.
         XObjectFactoryDefault factory;
+        std::unique_ptr<XPathEnvSupportDefault> envp;
+        std::unique_ptr<VarCtx> ctxp;
         for (size_t li = 1; li < lines.size(); ++li) {
             J c = parseJson(lines[li]);
             budget(20);
             const long long id = c.num("id");
             const std::string mode = c.str("mode", "eval");
             std::string out = "{\"e\":\"Res\",\"id\":" + std::to_string(id);
+            if (!ctxp) { envp.reset(new XPathEnvSupportDefault); ctxp.reset(new VarCtx(*envp, *support, factory)); }
+            VarCtx& ctx = *ctxp;
+            bool failed = false;
             try {
-                XPathEnvSupportDefault env;
-                VarCtx ctx(env, *support, factory);
                 XPathConstructionContextDefault cctx;
                 MapResolver res;
                 if (const J* ns = c.get("ns")) for (auto& kv : ns->o) res.m[kv.first] = fromUtf8(kv.second.s);
@@ -195,12 +201,15 @@ int main(int argc, char** argv) {
                     else { fprintf(stderr, "unknown mode %s\n", mode.c_str()); return 2; }
                 }
             } catch (const XSLException& e) {
-                out += ",\"error\":" + jstr(excMessage(e));
+                out += ",\"error\":" + jstr(excMessage(e)); failed = true;
             } catch (const std::exception& e) {
-                out += ",\"error\":" + jstr(std::string("std::exception ") + e.what());
+                out += ",\"error\":" + jstr(std::string("std::exception ") + e.what()); failed = true;
             } catch (...) {
-                out += ",\"error\":\"unknown exception\"";
+                out += ",\"error\":\"unknown exception\""; failed = true;
             }
+            ctx.vars.clear();
+            if (failed) { ctxp.reset(); envp.reset(); }
+            else ctx.popCurrentNode();
             out += "}\n";
             fputs(out.c_str(), stdout);
         }
